@@ -33,7 +33,7 @@ REPORT_COUNTERS = ['trees', 'predicates', 'ok_PY', 'ok_CPP', 'flat_ok', 'mismatc
 def plan(tier, seed):
   flavour = 'asan' if tier == 'thorough' else 'prod'
   return {'nshards': 16, 'timeout_s': 5400 if tier == 'thorough' else 1200,
-          'params': {'n_trees': 50 if tier == 'thorough' else 26, 'flavour': flavour}, 'env': build.shard_env(flavour)}
+          'params': {'n_trees': 8 if tier == 'thorough' else 26, 'flavour': flavour}, 'env': build.shard_env(flavour)}
 
 
 def prepare(tier, seed, out_dir):
